@@ -41,17 +41,32 @@ def extract():
                 return [names[e.attr] for e in lst.elts]
         raise ValueError("recv_stub call not found in " + fn_name)
 
+    def handshake_ifs(fn):
+        """`if <daemon>._handshake(..):` or `x = <daemon>._handshake(..)` (assigned once) followed by `if x:`"""
+        is_hs = lambda e: isinstance(e, ast.Call) and getattr(e.func, "attr", "") == "_handshake"
+        names = {}
+        for n in ast.walk(fn):
+            if isinstance(n, ast.Assign) and len(n.targets) == 1 and isinstance(n.targets[0], ast.Name):
+                names.setdefault(n.targets[0].id, []).append(n.value)
+        from_hs = {k for k, v in names.items() if len(v) == 1 and is_hs(v[0])}
+        return [n for n in ast.walk(fn) if isinstance(n, ast.If) and (is_hs(n.test) or (isinstance(n.test, ast.Name) and n.test.id in from_hs))]
+
     def guarded_thread():
         tree = ast.parse(open(svr_threads.__file__).read())
         cls = [n for n in tree.body if isinstance(n, ast.ClassDef) and n.name == "ClientConnectionJob"][0]
         call = [n for n in cls.body if isinstance(n, ast.FunctionDef) and n.name == "__call__"][0]
-        st = call.body[0]
-        ok = isinstance(st, ast.If) and isinstance(st.test, ast.Call) and getattr(st.test.func, "attr", "") == "handleConnection" \
-            and len(call.body) == 1 and not st.orelse
+        body = [n for n in call.body if not (isinstance(n, ast.Expr) and isinstance(n.value, ast.Constant))]    # skip a docstring
+        st = body[0]
+        is_hc = lambda e: isinstance(e, ast.Call) and getattr(e.func, "attr", "") == "handleConnection"
+        # either the whole body is `if self.handleConnection(): <loop>` ...
+        ok = isinstance(st, ast.If) and is_hc(st.test) and len(body) == 1 and not st.orelse
+        # ... or it starts with `if not self.handleConnection(): return` (nothing else runs before that test)
+        ok = ok or (isinstance(st, ast.If) and isinstance(st.test, ast.UnaryOp) and isinstance(st.test.op, ast.Not) and is_hc(st.test.operand)
+                    and not st.orelse and len(st.body) == 1 and isinstance(st.body[0], ast.Return) and st.body[0].value is None)
         hc = [n for n in cls.body if isinstance(n, ast.FunctionDef) and n.name == "handleConnection"][0]
         # `return True` only directly under `if self.daemon._handshake(self.csock):`
         rets = [n for n in ast.walk(hc) if isinstance(n, ast.Return) and isinstance(n.value, ast.Constant) and n.value.value is True]
-        ifs = [n for n in ast.walk(hc) if isinstance(n, ast.If) and isinstance(n.test, ast.Call) and getattr(n.test.func, "attr", "") == "_handshake"]
+        ifs = handshake_ifs(hc)
         ok = ok and len(rets) == 1 and len(ifs) == 1 and rets[0] in ifs[0].body
         return ok
 
@@ -60,7 +75,7 @@ def extract():
         cls = [n for n in tree.body if isinstance(n, ast.ClassDef) and n.name == "SocketServer_Multiplex"][0]
         hc = [n for n in cls.body if isinstance(n, ast.FunctionDef) and n.name == "_handleConnection"][0]
         rets = [n for n in ast.walk(hc) if isinstance(n, ast.Return) and isinstance(n.value, ast.Name) and n.value.id == "conn"]
-        ifs = [n for n in ast.walk(hc) if isinstance(n, ast.If) and isinstance(n.test, ast.Call) and getattr(n.test.func, "attr", "") == "_handshake"]
+        ifs = handshake_ifs(hc)
         ev = [n for n in cls.body if isinstance(n, ast.FunctionDef) and n.name == "events"][0]
         regs = [n for n in ast.walk(ev) if isinstance(n, ast.Call) and getattr(n.func, "attr", "") == "register"]
         guarded = [n for n in ast.walk(ev) if isinstance(n, ast.If) and isinstance(n.test, ast.Name) and n.test.id == "conn"
